@@ -63,7 +63,17 @@ func (p *Path) protoNorm(v Value, t types.Type, elem bool) Value {
 			for i := range arr {
 				arr[i] = p.sliceGet(s, i)
 			}
-			return SliceV{O: p.newObj(&ArrayV{E: arr, Mut: true}, nil, "proto-bytes"), Len: s.Len, Cap: s.Len}
+			o := p.newObj(&ArrayV{E: arr, Mut: true}, nil, "proto-bytes")
+			if s.O != nil && s.Off == 0 && s.Len == len(p.backing(s.O).E) {
+				// a copy of an opaque encoding stays that encoding (nested messages, integers)
+				if x, ok := p.bigBlobs[s.O]; ok {
+					p.bigBlobs[o] = x
+				}
+				if pb, ok := p.protoBlobs[s.O]; ok {
+					p.protoBlobs[o] = pb
+				}
+			}
+			return SliceV{O: o, Len: s.Len, Cap: s.Len}
 		}
 		if s.Len == 0 {
 			return SliceV{}
